@@ -34,6 +34,12 @@ def scenario_code(idx, lists, undefined, K, nested=None):
         o.append("template<> struct definition<%s, %s> : not_defined %s;" % (first, ", ".join("C<%d>" % c for c in u), body))
     o.append("using P = product<%s>;" % tl)
     o.append("use_definitions<definition, product<types<%s>, %s>> reg;" % (first, tl))
+    # a combination reached by a second registration object (the same product again, or an overlapping one) is still ONE definition
+    if idx % 4 == 2:
+        o.append("use_definitions<definition, product<types<%s>, %s>> reg_again;" % (first, tl))
+    elif idx % 4 == 3:
+        sub = ", ".join("types<%s>" % ", ".join("C<%d>" % c for c in (l[:1] if i == 0 else l)) for i, l in enumerate(lists))
+        o.append("use_definitions<definition, product<types<%s>, %s>> reg_overlap;" % (first, sub))
     o.append("void run() {")
     o.append('    std::string s = "{\\"e\\":\\"tmpl\\",\\"id\\":%d,\\"K\\":%d,\\"lists\\":%s,\\"undefined\\":%s,\\"product\\":[";' %
              (idx, K, str([list(l) for l in lists]).replace(" ", ""), str([list(u) for u in undefined]).replace(" ", "")))
